@@ -8,7 +8,7 @@ from .. import e2
 from ..reports import all_reports, diff_reports
 
 PROP = "C16"
-REPORTS = ["solve", "rail_rep", "params", "limits", "phases", "tree", "save"]
+REPORTS = ["solve_energy", "rail_rep", "params", "limits", "phases", "tree", "save", "diag"]
 _FRESH = {}
 
 
@@ -49,7 +49,7 @@ def state_check(sd, hist):
     reps = all_reports(s, REPORTS)
     for name, r in reps.items():
         if isinstance(r, tuple) and r and r[0] == "EXC":
-            if name in ("solve", "rail_rep") and (r[1] == "RuntimeError" or "Unstable" in r[2]):
+            if name in ("solve", "solve_energy", "rail_rep") and (r[1] == "RuntimeError" or "Unstable" in r[2]):
                 continue
             v.append(((PROP + ".report-fails", name, r[1], last), "after %r: %s" % (hist[-1] if hist else None, r[2])))
     if v:
@@ -80,7 +80,7 @@ def replay(doc):
 def main(tier):
     run = Run(PROP, tier, replay)
     D, B = (2, 2) if tier == "quick" else (3, 2)
-    st = e2.explore(run, list(e2.SEEDS), D, B, state_check=state_check, phase_ops=True)
+    st = e2.explore(run, list(e2.SEEDS), D, B, state_check=state_check, phase_ops=True, analysis_op=True)
     if tier != "quick":
         st2 = e2.explore(run, ["mux", "freed"], 4, 1, letters="RIM", state_check=state_check, phase_ops=False)
         for k in ("states", "transitions", "rejected", "states_via_cc", "states_via_dc", "state_checks"):
@@ -90,9 +90,10 @@ def main(tier):
     run.nontrivial = st["states_via_cc"] + st["states_via_dc"]
     run.samples.append({"seed": "mux", "history": [["cc", "A1", "C", "N1", ""], ["dc", "N1", False]], "note": "rename a mux input, then delete it keeping its children"})
     run.require(run.nontrivial > 100, "too few states reached through change/delete")
+    __import__("shutil").rmtree(__import__("os").path.join(__import__("mc.common", fromlist=["VERIF"]).VERIF, ".work"), ignore_errors=True)
     return run.finish(
-        rule="E2: every distinct state (K_full) reached by histories of depth <= %d, budget <= %d from 5 seeds (edit + phase ops)%s; per state: reference edit semantics vs the structure read "
-             "from the object (names, kinds, parameters, parent lists with PMux priority order, rails, groups, phase configs, system phases), all 7 reports succeed, and all reports equal "
+        rule="E2: every distinct state (K_full) reached by histories of depth <= %d, budget <= %d from 5 seeds (edit + phase ops, re-adding deleted names, 3-input muxes, and a solve(energy=True) call in the middle of the history)%s; per state: reference edit semantics vs the structure read "
+             "from the object (names, kinds, parameters, parent lists with PMux priority order, rails, groups, phase configs, system phases), all 8 reports succeed, and all reports equal "
              "(keyed, 1e-9) those of a fresh system built from that structure in canonical order. non-trivial = states first reached through change_comp / del_comp." % (
                  D, B, "" if tier == "quick" else "; plus depth 4, budget 1 over 3 letters from the mux and freed-index seeds"),
         states=st["states"], transitions=st["transitions"], traces=st["state_checks"],
